@@ -241,7 +241,7 @@ def mon_c05(sc, controller, outcome):
 
 
 EXPECTED_FAULT = {"float": "not-int", "str": "not-int", "negative": "not-later", "equal": "not-later", "past": "not-later",
-                  "out_time_past": "output-time"}
+                  "out_time_past": "output-time", "out_time_zero": "output-time", "float_integral": "not-int"}
 
 
 def mon_c13(sc, controller, outcome):
@@ -254,7 +254,19 @@ def mon_c13(sc, controller, outcome):
     gots = [e for e in controller.full_trace if e[0] == "got" and sid_i(e[1]) == f["sim"]]
     kind = f["kind"]
     typ = sc["sims"][f["sim"]]["type"]
-    if kind == "out_time_past":
+    if kind in ("out_time_past", "out_time_zero"):
+        # the reply only reaches mosaik if get_data is called at all (some output is connected)
+        begins = [e for e in controller.full_trace if e[0] == "begin" and sid_i(e[1]) == f["sim"]]
+        if not has_outputs(sc, f["sim"]) or len(begins) <= f["n"]:
+            return vio
+        if len(gots) <= f["n"] and not outcome.startswith("failed"):
+            return vio
+        exp = f"failed SimulationError bad-reply {f['sim']} output-time"
+        if outcome != exp and not outcome.startswith("failed SimulationError"):
+            vio.append({"law": "an output time earlier than the step time must abort run() with an error naming the simulator", "fault": f,
+                        "outcome": outcome, "expected": exp})
+        return vio
+    if False:
         if len(gots) <= f["n"]:
             return vio
         t = gots[f["n"]][2][0]
@@ -427,4 +439,60 @@ def mon_c16(sc, controller, outcome):
             if len(steps) > req["n"] and outcome != f"failed ScenarioError async-refused {req['sim']}":
                 if not outcome.startswith("failed"):
                     vio.append({"law": "set_data/get_data without an async connection must be refused with ScenarioError", "request": req, "outcome": outcome})
+    return vio
+
+
+# ------------------------------------------------------------------ C17: real-time pacing
+
+def mon_c17(sc, controller, outcome):
+    vio = []
+    f = sc.get("rt")
+    if f is None:
+        # set_event outside real-time mode must be an error
+        for req in sc.get("extra_async", []):
+            if req["kind"] == "set_event":
+                steps = [e for e in controller.full_trace if e[0] == "begin" and sid_i(e[1]) == req["sim"]]
+                if len(steps) > req["n"] and not outcome.startswith("failed"):
+                    vio.append({"law": "set_event outside real-time mode must be an error", "request": req, "outcome": outcome})
+        return vio
+    until = sc["until"]
+    past_event = False
+    for idx, e in enumerate(controller.full_trace):
+        if e[0] == "begin":
+            t, clock = e[2][0], e[5]
+            if clock < f * (t - 1):
+                vio.append({"law": "a step for time t must not begin before rt_factor*(t-1)", "sim": sid_i(e[1]), "t": t, "clock": clock, "rt_factor": f})
+    # external events
+    for req in sc.get("extra_async", []):
+        if req["kind"] != "set_event":
+            continue
+        sets = [(idx, e) for idx, e in enumerate(controller.full_trace) if e[0] == "set_event" and sid_i(e[1]) == req["sim"]]
+        if not sets:
+            continue
+        idx0 = sets[0][0]
+        t = req["time"]
+        # time of the step during which the event was set
+        cur = [e for e in controller.full_trace[:idx0] if e[0] == "begin" and sid_i(e[1]) == req["sim"]][-1]
+        if t <= cur[2][0]:
+            past_event = True
+            continue
+        later = [e for e in controller.full_trace[idx0:] if e[0] == "begin" and sid_i(e[1]) == req["sim"] and e[2][0] == t]
+        ignored = any(e[0] == "event-ignored" for e in controller.full_trace[idx0:])
+        if t >= until:
+            if later or not ignored:
+                vio.append({"law": "an event at or after until is ignored with a warning", "request": req, "stepped": bool(later), "warned": ignored})
+        elif outcome == "finished" and not later:
+            vio.append({"law": "set_event(t) for a future t < until causes a step at t", "request": req, "outcome": outcome})
+    if outcome.startswith("failed AssertionError") and not past_event:
+        vio.append({"law": "a real-time run with compliant simulators completes without internal error", "outcome": outcome})
+    if outcome == "deadlock":
+        vio.append({"law": "real-time run hangs", "outcome": outcome})
+    warns = sum(1 for e in controller.full_trace if e[0] == "rtwarn")
+    if sc.get("instant") and (warns or outcome.startswith("failed RuntimeError too-slow")):
+        vio.append({"law": "a run whose simulators answer instantly is never reported as too slow", "warnings": warns, "outcome": outcome,
+                    "finding": "C17-instant-too-slow" if sc["connects"] else None})
+    if sc.get("rt_strict") and warns:
+        vio.append({"law": "rt_strict turns the first too-slow report into a RuntimeError", "warnings": warns, "outcome": outcome})
+    if not sc.get("rt_strict") and outcome.startswith("failed RuntimeError"):
+        vio.append({"law": "without rt_strict a slow run only warns", "outcome": outcome})
     return vio
